@@ -7,11 +7,17 @@ MCVars == { [name |-> "db", guid |-> "sec", attrs |-> NV \cup {"TIME_BASED_AUTHE
             [name |-> "PK", guid |-> "global", attrs |-> NV \cup {"TIME_BASED_AUTHENTICATED_WRITE_ACCESS"}, secure |-> TRUE],
             [name |-> "OsIndications", guid |-> "global", attrs |-> NV, secure |-> FALSE],
             \* a different variable whose name differs from the previous one only in letter case (variable names are case-sensitive)
-            [name |-> "osindications", guid |-> "global", attrs |-> NV, secure |-> FALSE] }
+            [name |-> "osindications", guid |-> "global", attrs |-> NV, secure |-> FALSE],
+            \* "db@global": an ordinary variable that is also called db, under the global vendor GUID (a variable is its name AND its GUID)
+            [name |-> "db@global", guid |-> "global", attrs |-> NV, secure |-> FALSE],
+            \* a variable defined without any attribute (the zero value of the definition's attribute word)
+            [name |-> "Plain0", guid |-> "global", attrs |-> {}, secure |-> FALSE] }
 MCVals == { [id |-> "empty", len |-> 0], [id |-> "d1", len |-> 76], [id |-> "d1b", len |-> 76],      \* d1b: another value of exactly the same length as d1
             [id |-> "d3", len |-> 172], [id |-> "dc", len |-> 744], [id |-> "d1c", len |-> 820],
             [id |-> "huge", len |-> 70000] }     \* more than 64 KiB
-ApiStep == \/ \E v \in Vars, val \in Vals, s \in BOOLEAN : WriteBegin(v, val, s)
+(* (whether a signed update of an ordinary variable that merely shares its NAME with a secure-boot variable has its descriptor removed is *)
+(* not something the statement settles - the store goes by the name -, so such variables are written with plain writes only)              *)
+ApiStep == \/ \E v \in Vars, val \in Vals, s \in BOOLEAN : (v.name = "db@global" => ~s) /\ WriteBegin(v, val, s)
            \/ \E v \in Vars : Read(v, v.attrs)
 HistOp == IF last'.op = "read" THEN [op |-> "read", v |-> last'.v, val |-> "-", signed |-> FALSE]
           ELSE [op |-> "write", v |-> call'.v.name, val |-> (CHOOSE x \in Vals : Stored(call'.v, x, call'.signed) = call'.val).id, signed |-> call'.signed]
